@@ -21,6 +21,7 @@ MANIFEST = dict(
     note=("A labelled bounded stand-in (catalogue operands for all 49 ordered pairs, both orders and the method form against the exact oracle) cross-checks symmetry and result types on CPython; it is not counted as proved. "
           "The type-pair space is finite and enumerated completely. Result types and 'Bug detected'-freedom of the leaf handlers that build results from hash sets (line/plane/segment/half-line vs polyhedron, coplanar polygon cases, "
           "polyhedron-polyhedron) rest on the bounded stand-ins of C02/C03, not on a proof; they are listed under functions_bounded_only."),
+    technique='contract-based deductive verification: type-exhaustive dispatcher proof for all 49 ordered pairs and handler result kinds against the parsed documentation table (ground EUF, z3) + labelled bounded run of all pairs on catalogue operands',
     design_ref="DESIGN.md section 9 (C04), section 3.3",
 )
 EXPLANATION = "Finite space (49 ordered type pairs + None) enumerated completely; operands are opaque so each pair covers all operand positions."
